@@ -4,6 +4,7 @@ import CalicoVerif.Model.C40
   `cfg <ipt|nft> <ipip> <vxlan> <vxport> <toHost> <filterAllow> <mangleAllow> <deny> <noInvalid> <prefixes> <failsafeIn> <failsafeOut>`
   `static <filter|raw|mangle> <chain>` | `hep <filter-in|filter-out|raw-in|raw-out|mangle-in> <iface> <tiers|->`
   `wldispatch <from|to> <iface|->` | `hepdispatch <iface|->`
+  `bpf <INPUT|FORWARD|OUTPUT> <4|6> <bpfIPv6 0|1> <known ifaces|->` (BPF-mode rules of setUpIptablesBPF) | `wlallow <iface|->`
 -/
 open CalicoVerif CalicoVerif.C40 CalicoVerif.Proto
 
@@ -112,6 +113,13 @@ def stepC (d : DC) (line : String) : DC × String :=
       (d, name ++ ": " ++ (if dir == "from" then "iifname" else "oifname") ++ " vmap @-" ++ name ++ " ;; " ++
           name ++ ": counter drop #Unknown interface")
     else (d, renderChain name (wlDispatchChain (dir == "from") (ifaceList ifs)))
+  | ["bpf", hook, ver, bpf6, _known] =>
+    if (ver != "4" && ver != "6") || (bpf6 != "0" && bpf6 != "1") then (d, "bad-op") else
+    if hook == "INPUT" then (d, rc d hook (bpfInputRules c))
+    else if hook == "FORWARD" then (d, rc d hook (bpfForwardRules c (ver == "6") (bpf6 == "1")))
+    else if hook == "OUTPUT" then (d, rc d hook bpfOutputRules)
+    else (d, "bad-op")
+  | ["wlallow", ifs] => (d, rc d chToWlDispatch (wlAllowChain (ifaceList ifs)))
   | ["hepdispatch", ifs] =>
     (d, rc d chFromHep (hepDispatchChain true (ifaceList ifs)) ++ " @@ " ++
         rc d chToHep (hepDispatchChain false (ifaceList ifs)))
